@@ -15,7 +15,7 @@ use bytes::Bytes;
 use domain::base::iana::{Class, DigestAlgorithm, Rcode, Rtype, SecurityAlgorithm};
 use domain::base::name::{Label, ToLabelIter};
 use domain::base::{Message, MessageBuilder, Name, NameBuilder, Record, Serial, ToName, Ttl};
-use domain::rdata::{Cname, Ds, Ns, Soa, Txt, ZoneRecordData, A};
+use domain::rdata::{Aaaa, Cname, Ds, Ns, Soa, Txt, ZoneRecordData, A};
 use domain::zonetree::parsed::Zonefile;
 use domain::zonetree::types::{StoredName, StoredRecord, ZoneCut, ZoneUpdate};
 use domain::zonetree::update::ZoneUpdater;
@@ -86,6 +86,7 @@ pub fn rtype_of(t: &str) -> Rtype {
         "SOA" => Rtype::SOA,
         "NS" => Rtype::NS,
         "A" => Rtype::A,
+        "AAAA" => Rtype::AAAA,
         "CNAME" => Rtype::CNAME,
         "DS" => Rtype::DS,
         "TXT" => Rtype::TXT,
@@ -107,6 +108,7 @@ pub fn data_of(t: &str, x: u64) -> Data {
         )),
         "NS" => ZoneRecordData::Ns(Ns::new(ns_target(x))),
         "A" => ZoneRecordData::A(A::from_octets(192, 0, 2, x as u8)),
+        "AAAA" => ZoneRecordData::Aaaa(Aaaa::new(std::net::Ipv6Addr::new(0x2001, 0xdb8, 0, 0, 0, 0, 0, x as u16))),
         "CNAME" => ZoneRecordData::Cname(Cname::new(
             Name::from_str(&format!("t{}.example.", x)).unwrap(),
         )),
@@ -137,6 +139,7 @@ pub fn model_data<O: AsRef<[u8]>, N: ToName>(d: &ZoneRecordData<O, N>) -> (Strin
             ("NS".into(), -1)
         }
         ZoneRecordData::A(a) => ("A".into(), a.addr().octets()[3] as i64),
+        ZoneRecordData::Aaaa(a) => ("AAAA".into(), a.addr().segments()[7] as i64),
         ZoneRecordData::Cname(c) => {
             let n: StoredName = c.cname().to_name();
             for x in 1..=3i64 {
@@ -322,6 +325,10 @@ impl ZoneHarness {
                 Value::Null
             }
             "Build" => {
+                // the generator's Build carries the whole zone file
+                if let Some(z) = op["zf"].as_array() {
+                    self.zf = z.clone();
+                }
                 match build_zone(&self.zf) {
                     Ok(z) => {
                         self.zone = Some(z);
@@ -389,7 +396,7 @@ impl ZoneHarness {
                             let ds = u64s(&op["ds"]);
                             let glue: Vec<StoredRecord> = op["glue"]
                                 .as_array()
-                                .map(|g| g.iter().map(|r| record_of(&r[0], "A", r[2].as_u64().unwrap_or(0))).collect())
+                                .map(|g| g.iter().map(|r| record_of(&r[0], r[1].as_str().unwrap_or("A"), r[2].as_u64().unwrap_or(0))).collect())
                                 .unwrap_or_default();
                             self.rt.block_on(node.make_zone_cut(ZoneCut {
                                 name: name_of(&op["n"]),
